@@ -457,11 +457,13 @@ def scale_groups():
     G["findall"] = [one(mem, C("findall", V(0), C("member", V(0), L120), V(1)), 2), one(mem, C("fa", V(0)), 1), one(mem, C("fd", V(0)), 1),
                     one(mem, C("findall", V(0), C(",", C("member", V(0), L120), C("member", V(0), lst([I(109), I(3)]))), V(1)), 2)]
     # --- one large fact matched by two simultaneously suspended queries
-    bigf = C("bigf", lst([V(i % 7) for i in range(100)]), V(0), C("t", V(1), V(2)))
+    bigf = C("bigf", lst([C("e", V(i % 7), I(i)) for i in range(100)]), V(0), C("t", V(1), V(2)))
     pat1 = C("bigf", V(0), A("one"), V(1))
     pat2 = C("bigf", V(0), A("two"), C("t", A("x"), V(1)))
     t1 = [{"op": "query", "e": 1, "r": 1, "goal": pat1, "qnv": 2, "t": 1}, {"op": "next", "r": 1, "t": 1}, {"op": "next", "r": 1, "t": 1}]
-    t2 = [{"op": "query", "e": 1, "r": 2, "goal": pat2, "qnv": 2, "t": 2}, {"op": "next", "r": 2, "t": 2}, {"op": "close", "r": 2, "how": "close", "t": 2}]
+    pat3 = C("bigf", V(0), A("three"), V(1))
+    t2 = [{"op": "query", "e": 1, "r": 2, "goal": pat2, "qnv": 2, "t": 2}, {"op": "next", "r": 2, "t": 2}, {"op": "close", "r": 2, "how": "close", "t": 2},
+          {"op": "query", "e": 1, "r": 3, "goal": pat3, "qnv": 2, "t": 2}, {"op": "next", "r": 3, "t": 2}, {"op": "next", "r": 3, "t": 2}]
     G["bigfact"] = [{"engines": 1, "scripts": {}, "keys": [], "threads": [t1, t2],
                      "steps": [[{"op": "assert", "e": 1, "term": bigf, "atEnd": True, "r": 0, "t": 3}],
                                [{"op": "assert", "e": 1, "term": C("bigf", lst([I(i) for i in range(105)]), V(0), V(0)), "atEnd": True, "r": 0, "t": 3}]]}]
